@@ -583,7 +583,13 @@ def run_check(prop: Prop, tier: str, seed: int) -> int:
         "wall_s": round(time.time() - t0, 2),
         "violations": violations,
     }
-    with open(os.path.join(EVID, f"{pid}.json"), "w") as f:
+    evdir = EVID
+    if os.environ.get("ASYNKIT_SRC"):
+        # a run against a scratch copy of the sources (seeded change, reverted fix): never overwrite
+        # the evidence of the real tree
+        evdir = os.path.join(VERIF, ".work", "evidence_scratch")
+        os.makedirs(evdir, exist_ok=True)
+    with open(os.path.join(evdir, f"{pid}.json"), "w") as f:
         json.dump(ev, f, indent=1, default=str)
 
     for l in known_lines:
